@@ -23,3 +23,16 @@ TWINS = [
     T("count-check-flipped", S, "        if num_files > self._remaining():", "        if self._remaining() < num_files:"),
     T("max-length-keyword", S, ").decompress(data, max_length)", ").decompress(data, max_length=max_length)"),
 ]
+
+# --- seeded changes kept under /verif/seeded (sub-agents saw only the property text); each must be reported by the named rule
+import os as _os
+from sa.selftest.harness import P as _P
+_SEEDS = _os.path.join(_os.path.dirname(_os.path.dirname(_os.path.dirname(_os.path.abspath(__file__)))), "seeded")
+SEEDED = [
+    ("C12-1", "C12-LIMIT"),
+    ("C12-2", "C12-LIMIT"),
+    ("C12-3", "C12-EMPTY"),
+    ("C12-4", "C12-LIMIT"),
+    ("C12-5", "C12-LIMIT"),
+]
+MUTANTS = list(MUTANTS) + [_P("seed-" + sid, _os.path.join(_SEEDS, sid, "patch.diff"), rule) for sid, rule in SEEDED if _os.path.exists(_os.path.join(_SEEDS, sid, "patch.diff"))]
